@@ -142,7 +142,26 @@ def observe(first=None, first_renderer=None):
             res['bare|' + d] = json.dumps(get_ast(mistletoe.Document(d)), sort_keys=True)
         except Exception as e:
             res['bare|' + d] = 'raised ' + type(e).__name__
+    # several documents through ONE renderer context ("whatever was parsed or rendered before": also the previous document of the
+    # same loop): documents that define the same labels with other destinations, repeat a code span, a heading, a table.  Each
+    # output is compared with the output of the same document rendered alone; the observation is the list of agreements.
+    for rn in ('HtmlRenderer', 'MarkdownRenderer', 'AstRenderer'):
+        R, kw = rclass(rn)
+        try:
+            alone = []
+            for d in SEQ_DOCS:
+                with R(**kw) as r:
+                    alone.append(r.render(mistletoe.Document(d)))
+            with R(**kw) as r:
+                seq = [r.render(mistletoe.Document(d)) for d in SEQ_DOCS]
+            res['seq|' + rn] = json.dumps([x == y for x, y in zip(alone, seq)])
+        except Exception as e:
+            res['seq|' + rn] = 'raised ' + type(e).__name__
     return res
+
+
+SEQ_DOCS = ['[a]: /u "t"\n\n[a] ![i][a] [a][]\n', '[a]: /other (T2)\n\n[a] ![i][a] [a][]\n', '[A]: <x>\n\n> [a]: /inner\n\n[a]\n', 'x `c` y\n', 'x `c` y `c`\n',
+            '# h #\n', '#\n', '| a |\n|:-:|\n| b |\n', '| a |\n|---|\n| b |\n', '[a]: /u "t"\n\n[a] ![i][a] [a][]\n']
 
 
 BASELINE_CODE = r'''
@@ -257,6 +276,14 @@ def run_history(history, check_every_block=True, baseline=None, first=None, firs
                 problems.append('after block %d the token lists are not the defaults: %r / %r' % (bi, s['block'], s['span']))
     if baseline is not None:
         obs = observe(first, first_renderer)
+        # documents rendered one after another in ONE context must each come out as when rendered alone (this does not need the
+        # baseline: both sides are computed here)
+        for k, v in obs.items():
+            if k.startswith('seq|') and v != json.dumps([True] * len(SEQ_DOCS)):
+                bad = [SEQ_DOCS[i] for i, ok in enumerate(json.loads(v)) if not ok] if v.startswith('[') else v
+                problems.append('documents rendered one after another in one %s context do not come out as when rendered alone: %r' % (
+                    k.split('|', 1)[1], bad))
+                break
         for k, v in baseline['observe'].items():
             if k in obs and obs.get(k) != v:
                 problems.append('after the history, %s of %r gives %r; a fresh interpreter gives %r' % (
